@@ -779,8 +779,20 @@ func writeExpression(ctx *exprContext, sb *strings.Builder, x parser.Expr) error
 		}
 		sb.WriteString(")")
 	case *parser.IndexExpr:
-		if err := writeExpressionMaybeParen(ctx, sb, x.X); err != nil {
+		// Indexing binds tighter than a sign in SQL,
+		// so a base whose SQL starts with a sign
+		// (a unary expression or a substituted let binding/parameter)
+		// must be parenthesized: (-a)[1] is not -a[1].
+		base := new(strings.Builder)
+		if err := writeExpressionMaybeParen(ctx, base, x.X); err != nil {
 			return err
+		}
+		if s := base.String(); strings.HasPrefix(s, "-") || strings.HasPrefix(s, "+") {
+			sb.WriteString("(")
+			sb.WriteString(s)
+			sb.WriteString(")")
+		} else {
+			sb.WriteString(s)
 		}
 		sb.WriteString("[")
 		if err := writeExpression(ctx, sb, x.Index); err != nil {
